@@ -62,7 +62,7 @@ func (s *sched) execLine(line string) bool {
 		if n < 0 || n >= len(s.srv.layers) {
 			return false
 		}
-		s.spawn(n, len(w) > 2 && w[2] == "baduri")
+		s.spawnAt(n, len(w) > 2 && w[2] == "baduri", len(w) > 2 && w[2] == "alt")
 	case "enter":
 		t := taskAt("enter")
 		if t == nil {
@@ -330,7 +330,7 @@ func Run(cfg hx.Config) error {
 	zlog.Set(&nop)
 	rnd := hx.NewRand(cfg.Seed)
 	base := runtime.NumGoroutine()
-	layers := []*layer{mkLayer(0, true, 3000), mkLayer(1, true, 70000), mkLayer(2, true, 10), mkLayer(3, false, 0)}
+	layers := []*layer{mkLayer(0, true, 3000), mkLayerZ(1, true, 70000, gzipTar), mkLayerZ(2, true, 10, zstdTar), mkLayer(3, false, 0)}
 
 	// corpus first: witnesses of the repaired defects and of the listed finding
 	corpus := loadCorpus(cfg.Corpus)
